@@ -206,6 +206,12 @@ func stateOf(entries []manifestEntry, pool []*images.Image) string {
 	return strings.Join(s, ",")
 }
 
+// ordinaryDate: between 1971 and 2200. Outside that range the repository's own time conversion
+// does not round-trip (timeproto.To writes negative nanoseconds before 1970 and overflows beyond
+// the int64 nanosecond range), so the document's date is not used to recognise a run's file —
+// its changelist number and digest are.
+func ordinaryDate(t time.Time) bool { return t.Year() > 1970 && t.Year() < 2200 }
+
 func runC13(r *core.Run) {
 	a := worlda.NewAuthority(r, worlda.Config{KM: "memkm", CA: "memca", ViaCLI: true}, seams.NewPlanNone(r))
 	if err, _ := a.Bootstrap(worlda.BootArgs{}); err != nil {
@@ -231,7 +237,7 @@ func runC13(r *core.Run) {
 	pool := images.Small()[:2+r.Intn(3, "pool-size")]
 	// candidate names: the default, plain ones, and one with a directory separator (legal: the flag
 	// is not validated and both back ends create parent directories)
-	cands := []string{"", "rc1", "rel-7/RC00", "rc2", "rc  two spaces", "lib\xe9r\xe9-rc1"}[:2+r.Intn(5, "candidates")] // the last one: a legal file name that is not UTF-8
+	cands := []string{"", "rc1", "rel-7/RC00", "rc2", "rc  two spaces", "lib\xe9r\xe9-rc1", "./rc9", "rel//rc8"}[:2+r.Intn(7, "candidates")] // also: a legal file name that is not UTF-8, and names that are not in canonical path form
 	n := 2 + r.Intn(14, "runs")
 	if r.Tier != "thorough" && n > 10 {
 		n = 10
@@ -261,6 +267,11 @@ func runC13(r *core.Run) {
 			ViaCLI: backend == 1 && r.Bool("via-cli")}
 		if r.Chance(20, "snapshot?") {
 			q.SnapshotDir = "snap"
+		}
+		if !q.ViaCLI && r.Chance(8, "odd-document-date?") {
+			// (library path) the document date is the request's: before 1970 with a fraction of a second,
+			// or far ahead. The manifest's create_time follows it.
+			q.Timestamp = []time.Time{time.Unix(-1, 500_000_000).UTC(), time.Date(1969, 7, 20, 20, 17, 40, 250_000_000, time.UTC), time.Date(12000, 1, 1, 0, 0, 0, 0, time.UTC)}[r.Intn(3, "odd-document-date")]
 		}
 		q.KeepGoing = r.Chance(15, "keep-going?")
 		if longLived && !q.ViaCLI {
@@ -320,7 +331,7 @@ func runC13(r *core.Run) {
 			le := &epb.VMLaunchEndorsement{}
 			g := &epb.VMGoldenMeasurement{}
 			if fb, ok := after[path.Join(outPath, base)]; !ok || proto.Unmarshal(fb, le) != nil || proto.Unmarshal(le.GetSerializedUefiGolden(), g) != nil ||
-				g.GetClSpec() != q.ClSpec || !timeproto.From(g.GetTimestamp()).Equal(q.Timestamp.Truncate(time.Nanosecond)) || !bytes.Equal(g.GetDigest(), q.Image.Digest[:]) {
+				g.GetClSpec() != q.ClSpec || (ordinaryDate(q.Timestamp) && !timeproto.From(g.GetTimestamp()).Equal(q.Timestamp.Truncate(time.Nanosecond))) || !bytes.Equal(g.GetDigest(), q.Image.Digest[:]) {
 				r.Fail("latest-run-not-indexed", "stale-file", "%s: %q does not hold the endorsement this run produced", where, base)
 			}
 		} else if err == nil {
